@@ -206,7 +206,13 @@ func Big(s *core.Source) orb.Geometry {
 	}
 	n := []int{9999, 10000, 10001, 10037, 20011}[s.Intn(5, "bign")]
 	m := []int{99, 100, 101, 137, 260}[s.Intn(5, "bigm")]
-	switch s.Intn(9, "bigkind") {
+	switch s.Intn(10, "bigkind") {
+	case 9: // collections nested far deeper than anything drawn member by member
+		var g orb.Geometry = orb.Point{1, 2}
+		for d := []int{99, 100, 101, 150, 400}[s.Intn(5, "bigdepth")]; d > 0; d-- {
+			g = orb.Collection{g}
+		}
+		return g
 	case 7: // a long line FOLLOWED by other members: whatever the encoder keeps after a big write shows up in them
 		return orb.MultiLineString{orb.LineString(pts(n)), orb.LineString(pts(2)), orb.LineString(pts(3))}
 	case 8:
